@@ -133,7 +133,29 @@ def wildcard(F, rep):
                     rep.bad(rule, "prefix-loses-separator:" + nm, "%s strips %d characters of the %r suffix, so the retained prefix (%r) does not end in '/': 'prefix/*' also matches 'prefixfoo'" % (nm, e[2], sfx, kept), site)
             else:
                 rep.undecided(rule, "unrecognised-shape:" + nm, "cannot relate the wildcard prefix slice to its ends_with guard (%s, %r)" % (e, sfx), site)
-    rep.floor(rule, "wildcard prefix slices", n, 2)
+    if n == 0:
+        # `pattern.strip_suffix('*')` kept only when it ends with '/': the other way of keeping the separator
+        for nm in ("BranchRule::matches", "BranchRule::extract_branch_number"):
+            f = F.fn("crate::cli::flow::branch_rules::" + nm)
+            if f is None: continue
+            f = mir.inlined(F, f, depth=3)
+            for bi, t in f.calls():
+                if not ("::strip_suffix" in (mir.callee(t) or "")) or len(t[2]) < 2: continue
+                sfx = mir.const_arg(f, t[2][1])
+                if sfx not in ("*", "/*"): continue
+                n += 1
+                site = "%s bb%d line %s" % (f.where(), bi, f.blocks[bi]["line"])
+                if sfx == "/*":
+                    rep.bad(rule, "prefix-loses-separator:" + nm, "%s strips the whole '/*' suffix, so the retained prefix does not end in '/': 'prefix/*' also matches 'prefixfoo'" % nm, site); continue
+                # some ends_with(.., '/') test on the stripped prefix must hold where the prefix is used
+                kept = False
+                for b2, t2 in f.calls():
+                    if "::ends_with" in (mir.callee(t2) or "") and len(t2[2]) > 1 and mir.const_arg(f, t2[2][1]) == "/":
+                        if any(k == "call" and d == str(bi) for k, d in mir.deep_origins(f, t2[2][0])): kept = True
+                if kept: rep.ok(rule, "%s: pattern.strip_suffix('*') used only when it ends with '/'" % nm, sample=site, nontrivial_key=nm)
+                else: rep.bad(rule, "prefix-loses-separator:" + nm, "%s strips the '*' but never requires the remaining prefix to end in '/'" % nm, site)
+    if n == 0: rep.undecided(rule, "wildcard-prefix-shape", "the 'prefix/*' handling is neither a pattern[..len-k] slice nor strip_suffix: separator retention not evaluated", None)
+    else: rep.floor(rule, "wildcard prefix slices", n, 2)
     # matches(): 3-row table: "*" -> non-empty; ".../*" -> starts_with(prefix) && longer; else equality
     f = F.fn("crate::cli::flow::branch_rules::BranchRule::matches")
     if f is not None:
@@ -148,7 +170,10 @@ def wildcard(F, rep):
                     if v is not None and v[0] == "const": consts.add(v[1])
         consts = sorted(consts)
         has = lambda x: any((mir.callee(t) or "").endswith(x) for bi, t in f.calls())
-        if "*" in consts and "/*" in consts and has("::starts_with") and has("::is_empty") and any("PartialEq" in (t[1].get("full") or "") for bi, t in f.calls()):
+        has_in = lambda x: any(x in (mir.callee(t) or "") for bi, t in f.calls())
+        wild = "/*" in consts or ("/" in consts and has_in("::strip_suffix"))
+        pref = has("::starts_with") or has_in("::strip_prefix")
+        if "*" in consts and wild and pref and has("::is_empty") and any("PartialEq" in (t[1].get("full") or "") for bi, t in f.calls()):
             rep.ok(rule, "matches(): '*' (non-empty), 'prefix/*' (starts_with and longer), exact equality", nontrivial_key="rows")
         else: rep.bad(rule, "match-rows", "BranchRule::matches lost one of its three pattern kinds (constants %s)" % consts, f.where())
 
@@ -170,10 +195,10 @@ def remainder_only(F, rep):
             for kind, data in mir.deep_origins(f, t[2][0]):
                 if kind == "call" and data.isdigit():
                     full = f.blocks[int(data)]["t"][1].get("full") or "" if f.blocks[int(data)]["t"][0] == "call" else ""
-                    if "Index<std::ops::RangeFrom<usize>>" in full or full.endswith("::strip_prefix"): sliced = True
+                    if "Index<std::ops::RangeFrom<usize>>" in full or "::strip_prefix" in full: sliced = True
         if not sliced:
             # `strip_prefix(prefix)` is the other way of dropping the prefix
-            sliced = any(o.kind == "call" and (mir.callee(o.fn.blocks[o.data]["t"]) or "").endswith("::strip_prefix") for o in mir.trace_op(f, t[2][0], transparent=mir.TRANSPARENT + ("Option::<T>::unwrap", "as std::ops::Try>::branch")))
+            sliced = any(o.kind == "call" and "::strip_prefix" in (mir.callee(o.fn.blocks[o.data]["t"]) or "") for o in mir.trace_op(f, t[2][0], transparent=mir.TRANSPARENT + ("Option::<T>::unwrap", "as std::ops::Try>::branch")))
         site = "%s bb%d line %s" % (f.where(), bi, f.blocks[bi]["line"])
         star = False
         for d, pol, dd in mir.guards_of(f, bi):
